@@ -28,7 +28,7 @@ Definition sx_pval (o : option value) : sx :=
 (* one correspondence case *)
 Definition run_search (verbose2 : bool) (c : config)
            (re_tbl excl_tbl : list (pystr * bool)) (b_tbl : list (pystr * pystr)) (re_text : pystr)
-           (str_attrs bytes_attrs : list pystr) (item : atom) (obj : value) : sx :=
+           (str_attrs bytes_attrs : list pystr) (item : value) (obj : value) : sx :=
   let brepr := tbl_str b_tbl in
   match deep_search brepr (tbl_bool re_tbl) (tbl_bool excl_tbl) re_text str_attrs bytes_attrs c item obj with
   | RRaise => SA "raise"
